@@ -569,6 +569,40 @@ def all_sites(crate):
                 if g is not None and g.kind in ("fn", "method") and cid != f.root:
                     callers[cid].add(f.root)
 
+    # a site in a helper that applies a predicate it received as a generic parameter, all of whose call sites lie in ONE
+    # calling function, is one stage of that function per call site: the fields / path comparisons of the closure handed
+    # in at that call are the stage's own tests (extracting `for … if pred(def) && !seen …` into a helper changes nothing)
+    expanded = []
+    for s in out:
+        h = s.fn
+        cs = callers.get(h.root, set()) - {h.root}
+        if not (s.filter_param and h.kind in ("fn", "method") and len(cs) == 1):
+            expanded.append(s)
+            continue
+        (gid,) = tuple(cs)
+        g_fns = [f for f in crate.real_fns() if f.root == gid]
+        calls = [(f, bb, c) for f in g_fns for bb, c in f.calls() if c.get("res") == h.root and c.get("clos")]
+        if not calls:
+            expanded.append(s)
+            continue
+        for f, bb, c in calls:
+            s2 = SelSite(h, s.kind, s.selector, s.bb, s.span, s.elem)
+            s2.fields = set(s.fields)
+            s2.path_cmp = list(s.path_cmp)
+            s2.to_return, s2.dedup, s2.key_field, s2.from_param = s.to_return, s.dedup, s.key_field, s.from_param
+            s2.filter_param = False
+            for cid, loc in c["clos"]:
+                cf = crate.fns.get(cid)
+                if cf is None:
+                    continue
+                s2.fields |= elem_fields_in(cf, s.elem)
+                s2.path_cmp += path_comparisons(crate, cf, s.elem)
+                if calls_fn_param(cf):
+                    s2.filter_param = True
+            s2.via_caller = gid
+            expanded.append(s2)
+    out = expanded
+
     def lift(fid, depth=0):
         cs = callers.get(fid, set())
         if len(cs) == 1 and depth < 1:
@@ -578,7 +612,7 @@ def all_sites(crate):
         return fid
     for s in out:
         # only a helper that is handed the collection lifts its site to the function that fetched the collection
-        s.owner = lift(s.fn.root) if s.from_param else s.fn.root
+        s.owner = getattr(s, "via_caller", None) or (lift(s.fn.root) if s.from_param else s.fn.root)
         # where the site would have been attributed before its function was split off its single caller
         alts = []
         cur = s.owner
